@@ -64,7 +64,7 @@ func RunDFS(cfg DFSConfig) *DFSResult {
 		cfg.Shards = 1
 	}
 	d := &dfs{cfg: cfg, res: &DFSResult{Bound: cfg.Bound, Exhaustive: true, Outcomes: map[string]int{}}}
-	d.explore(nil, 0)
+	d.explore(nil, 0, 0)
 	return d.res
 }
 
@@ -92,16 +92,22 @@ func (d *dfs) stop() bool {
 	return false
 }
 
-func (d *dfs) explore(prefix []int, used int) {
+// explore runs the execution selected by prefix and recurses into its
+// alternatives. level is the number of non-default choices made so far.
+// Sharding: the executions of levels 0 and 1 are run by every shard (they are
+// needed to enumerate the subtrees below) but counted and judged by shard 0
+// only; the level-2 subtrees are dealt round-robin to the shards.
+func (d *dfs) explore(prefix []int, used int, level int) {
 	if d.stop() {
 		return
 	}
-	// sharding: executions are numbered in DFS order at the second branching
-	// level; a shard runs the subtrees whose number is congruent to it.
 	var obs any
 	x := vrt.Run(prefix, vrt.Options{MaxSteps: d.cfg.MaxSteps}, func() { obs = d.cfg.Body() })
-	d.res.Executions++
-	d.res.Points += len(x.Points) - len(prefix)
+	mine := d.cfg.Shards <= 1 || level >= 2 || d.cfg.Shard == 0
+	if mine {
+		d.res.Executions++
+		d.res.Points += len(x.Points) - len(prefix)
+	}
 	if len(x.Points) > d.res.MaxDepth {
 		d.res.MaxDepth = len(x.Points)
 	}
@@ -110,6 +116,7 @@ func (d *dfs) explore(prefix []int, used int) {
 	}
 	msg := ""
 	switch {
+	case !mine:
 	case x.FailKind == "diverged":
 		msg = "INFRA nondeterministic replay: " + x.Failure
 	case x.Failure != "":
@@ -117,7 +124,8 @@ func (d *dfs) explore(prefix []int, used int) {
 	case d.cfg.Check != nil:
 		msg = d.cfg.Check(x, obs)
 	}
-	if d.cfg.Outcome != nil {
+	if !mine {
+	} else if d.cfg.Outcome != nil {
 		d.res.Outcomes[d.cfg.Outcome(x, obs)]++
 	} else if x.Failure != "" {
 		d.res.Outcomes[x.FailKind]++
@@ -132,6 +140,9 @@ func (d *dfs) explore(prefix []int, used int) {
 		d.res.Violations = append(d.res.Violations, DFSViolation{Scenario: d.cfg.Name, Choices: x.Choices(), Message: msg, Labels: labels})
 		return
 	}
+	if x.Failure != "" {
+		return // an aborted execution has no meaningful continuation points
+	}
 	choices := x.Choices()
 	cost := used
 	// cost of the part of the path that was defaulted is zero (choice 0)
@@ -145,7 +156,7 @@ func (d *dfs) explore(prefix []int, used int) {
 			continue
 		}
 		for alt := 1; alt < p.N; alt++ {
-			if d.cfg.Shards > 1 && len(prefix) == 0 {
+			if d.cfg.Shards > 1 && level == 1 {
 				d.n++
 				if d.n%d.cfg.Shards != d.cfg.Shard {
 					continue
@@ -154,7 +165,7 @@ func (d *dfs) explore(prefix []int, used int) {
 			np := make([]int, i+1)
 			copy(np, choices[:i])
 			np[i] = alt
-			d.explore(np, altCost)
+			d.explore(np, altCost, level+1)
 			if d.stop() {
 				return
 			}
